@@ -174,7 +174,9 @@ def expected_geometry(case):
         return None
     if case["mode"] == "search" and case["strategy"] == "closest":
         for q in xr:
-            if len(oracles.closest_candidates(x, q)) != 1 and oracles.closest_index(x, q) not in F:
+            # a float "midpoint" whose exact distances differ by less than the rounding of the subtractions:
+            # either neighbour is an admissible fixed point, the case is not judged
+            if len(oracles.closest_candidates(x, q)) != 1:
                 return None
     return F, R
 
